@@ -1562,6 +1562,91 @@ theorem poolNames (pool : List (ModPath × Desc)) (libs : List ModPath) (main : 
   main := hmain
   imports x src t hx ht := descSrcOk src (hpool (x, src) (alookup_mem hx)) t ht
 
+section FailedLoad
+variable {Src Tree NV V Text : Type} (L : Lang Src Tree NV V Text) (E : Env Src)
+
+theorem parseModule_mods (s : St L) (p : ModPath) : (parseModule L E s p).2.mods = s.mods := by
+  unfold parseModule
+  cases E.disk p with
+  | none =>
+    simp only
+    split
+    · cases L.parse s.mainSrc <;> rfl
+    · rfl
+  | some src =>
+    simp only
+    cases alookup s.ast p with
+    | some t => rfl
+    | none => simp only; cases L.parse src <;> rfl
+
+theorem epLoad_mods (s : St L) (p : ModPath) : (epLoad L E s p).2.mods = s.mods := by
+  unfold epLoad
+  split
+  · rfl
+  · have h := parseModule_mods L E s p
+    generalize parseModule L E s p = r at h
+    obtain ⟨rr, s1⟩ := r
+    cases rr <;> exact h
+
+/-- `Modules.load` (modules.py:73-91): whatever the failure is — a tranp error or any other exception (normalised to Fatal) —
+    every failing path after the registration of `p` runs the rollback `unload p`; before the registration `p` is not touched -/
+theorem loadOne_failed_unregistered (rec : List ModPath → St L → Except Err Unit × St L) (p : ModPath) (s s' : St L) (e : Err)
+    (h : loadOne L E rec (unload L E) p s = (.error e, s')) (hp : p ∉ s.mods)
+    (hlib : p ∈ E.libs ∨ p ∉ (rec E.libs s).2.mods) : p ∉ s'.mods := by
+  unfold loadOne at h
+  simp only [hp, if_false] at h
+  -- the state after the library phase
+  have key : ∀ s0 : St L, p ∉ s0.mods →
+      (if p ∈ s0.mods then ((.ok (), s0) : Except Err Unit × St L) else
+        match epLoad L E s0 p with
+        | (.error e, s1) => (.error e, s1)
+        | (.ok _, s1) =>
+          match alookup ({ s1 with mods := addIfAbsent s1.mods p } : St L).eps p with
+          | none => (.error .other, unload L E { s1 with mods := addIfAbsent s1.mods p } p)
+          | some ep =>
+            match rec (L.imports ep.tree) { s1 with mods := addIfAbsent s1.mods p } with
+            | (.error e, s3) => (.error e, unload L E s3 p)
+            | (.ok _, s3) =>
+              match preprocess L E s3 p with
+              | (.error e, s4) => (.error e, unload L E s4 p)
+              | (.ok _, s4) => (.ok (), s4)) = (.error e, s') → p ∉ s'.mods := by
+    intro s0 h0 hh
+    simp only [h0, if_false] at hh
+    have hm := epLoad_mods L E s0 p
+    generalize epLoad L E s0 p = r at hh hm
+    obtain ⟨rr, s1⟩ := r
+    cases rr with
+    | error e1 =>
+      simp only [Prod.mk.injEq] at hh
+      rw [← hh.2]; simp only at hm; rw [hm]; exact h0
+    | ok u =>
+      simp only at hh
+      split at hh
+      · simp only [Prod.mk.injEq] at hh; rw [← hh.2]; exact unload_not_mem L E _ p
+      · generalize rec _ _ = r3 at hh
+        obtain ⟨rr3, s3⟩ := r3
+        cases rr3 with
+        | error e3 => simp only [Prod.mk.injEq] at hh; rw [← hh.2]; exact unload_not_mem L E _ p
+        | ok u3 =>
+          simp only at hh
+          generalize preprocess L E s3 p = r4 at hh
+          obtain ⟨rr4, s4⟩ := r4
+          cases rr4 with
+          | error e4 => simp only [Prod.mk.injEq] at hh; rw [← hh.2]; exact unload_not_mem L E _ p
+          | ok u4 => simp at hh
+  by_cases hl : p ∈ E.libs
+  · simp only [hl, if_true] at h
+    exact key s hp h
+  · simp only [hl, if_false] at h
+    have hlib' : p ∉ (rec E.libs s).2.mods := hlib.resolve_left hl
+    generalize rec E.libs s = r0 at h hlib'
+    obtain ⟨rr0, s0⟩ := r0
+    cases rr0 with
+    | error e0 => simp only [Prod.mk.injEq] at h; rw [← h.2]; exact hlib'
+    | ok u0 => exact key s0 hlib' h
+
+end FailedLoad
+
 /-! ## the inventory of real session state (Generated/SessionState.lean) against the model state -/
 
 section Inventory
